@@ -149,10 +149,12 @@ def gen_scalar_aval(rng):
     return ['v', rng.choice([None, 1, 'x', 'allow', 'deny', '', 0, 2.5, True])]
 
 
-EFFECTS = ['allow', 'deny', 'ALLOW', None, '', 0, 'Allow ', 1]
+EFFECTS = ['allow', 'deny', 'ALLOW', None, '', 0, 'Allow ', 1, 'all', 'w']
 
 
 def gen_op(rng):
+    if rng.random() < 0.1:
+        return ['@json', ['v', None]]       # the policy is serialised here (Policy._data works on the live object)
     name = rng.choice(['subjects', 'resources', 'actions', 'subjects', 'actions', 'context', 'effect', 'type',
                        'description', 'uid', 'custom_attr'])
     if name in ('subjects', 'resources', 'actions'):
@@ -172,7 +174,7 @@ class C10Stream(Stream):
     case_type = 'case'
     run_fn = 'run'
     rule = ('constructor arguments over str / rule / dict / ill-typed elements in lists or tuples (or plain '
-            'values), then 0-8 attribute assignments incl. invalid ones and direct type assignments; after every '
+            'values), then 0-8 attribute assignments incl. invalid ones, direct type assignments and serialisations (to_json); after every '
             'step vars(policy) is compared with the model state. non-trivial = construction succeeds and at '
             'least one later assignment is rejected and one accepted; distinct by canonical JSON of the case')
 
@@ -258,7 +260,10 @@ class C10Stream(Stream):
         out = ['ok ' + s_state(p)]
         for n, v in c['ops']:
             try:
-                setattr(p, n, mk_aval(v))
+                if n == '@json':
+                    p.to_json()
+                else:
+                    setattr(p, n, mk_aval(v))
                 out.append('ok ' + s_state(p))
             except Exception as e:  # noqa
                 out.append(s_exc(e) + ' ' + s_state(p))
